@@ -19,14 +19,15 @@ CONSTANTS L0, L1,     \* lengths of the input and of the decode target
           Types1, Kinds1, \* ... and on the decode target
           Slack,          \* 0 for in-bounds worlds
           MinStart,       \* smallest hit start (1: everything happens at non-zero offsets, where the frames differ)
-          HighAt          \* 0, or the position of the input that holds a byte above 127 (0xC8) instead of a letter
+          HighAt          \* 0, or the position from which the input holds bytes above 127 (0xC8) instead of letters
+                          \* (two of them: a decoding that drops them can be empty over a span of two bytes)
 
 \* named depth-limit sets for configuration files (cfg syntax has no negative numbers)
 K_m1_2_4 == {-1, 2, 4}
 K_m5_0_1 == {-5, 0, 1}
 
 Letters(base, n) == Tup([i \in 1..n |-> base + i - 1])
-Input  == Tup([i \in 1..L0 |-> IF i = HighAt THEN 200 ELSE 96 + i])      \* "abc", or e.g. "a\xC8c"
+Input  == Tup([i \in 1..L0 |-> IF HighAt > 0 /\ i >= HighAt THEN 200 ELSE 96 + i])      \* "abc", or e.g. "a\xC8\xC8" (HighAt = 2)
 Target == Letters(100 + L0, L1)                 \* distinct from the input's letters
 Leaf   == <<122>>
 FlipB(b) == IF b >= 97 /\ b <= 122 THEN b - 32 ELSE IF b >= 65 /\ b <= 90 THEN b + 32 ELSE b
